@@ -935,7 +935,7 @@ func TestVerifHashSlotMigration(t *testing.T) {
 		}
 		h.replayBehaviour(bi, b)
 	}
-	traces := env.Pick(80, 1200)
+	traces := env.Pick(60, 600)
 	for i := 0; i < traces; i++ {
 		h.drive(rec)
 	}
